@@ -1,7 +1,7 @@
 #!/bin/bash
 # run_all.sh [quick|thorough] : run every registered check in turn; summary at the end
 TIER="${1:-quick}"
-cd /verif
+cd "$(dirname "$0")/.."
 fail=0
 for id in $(python3 -c "import json;print(' '.join(c['property_id'] for c in json.load(open('MANIFEST.json'))['checks']))"); do
   out=$(./run $id $TIER 2>&1); rc=$?
